@@ -149,16 +149,16 @@ def main(tier):
     import acct, asmlin, c01, c02
     offz = c19.field_offsets('struct isal_zstream', ['next_in', 'avail_in', 'total_in', 'next_out', 'avail_out', 'total_out'])
     offi = c19.field_offsets('struct inflate_state', ['next_in', 'avail_in', 'next_out', 'avail_out', 'total_out'])
-    acct.check(rep, 'z', 150, offz, offi, mod)
-    acct.check(rep, 'i', 50, offz, offi, mod)
-    asmlin.check(rep, 'DEFLATE', 40, offz, r'^(isal_deflate_body|isal_deflate_finish|isal_deflate_icf_body_hash_hist|isal_deflate_icf_finish_hash_hist)_0\d$')
-    asmlin.check(rep, 'INFLATE', 6, offi, r'^decode_huffman_code_block_stateless_0\d$')
+    rep.attempt(acct.check, rep, 'z', 150, offz, offi, mod)
+    rep.attempt(acct.check, rep, 'i', 50, offz, offi, mod)
+    rep.attempt(asmlin.check, rep, 'DEFLATE', 40, offz, r'^(isal_deflate_body|isal_deflate_finish|isal_deflate_icf_body_hash_hist|isal_deflate_icf_finish_hash_hist)_0\d$')
+    rep.attempt(asmlin.check, rep, 'INFLATE', 6, offi, r'^decode_huffman_code_block_stateless_0\d$')
     offc = c19.field_offsets('struct isal_zstream', ['next_in', 'avail_in', 'total_in', 'next_out', 'avail_out', 'total_out', 'internal_state.count'])
     offc['count'] = offc.pop('internal_state.count')
-    acct.check_count_resume(rep, mod, offc, 10)
-    c01.check_tmp_states(rep, 'default')
-    c02.check_rollback(rep)
-    c19.check_resume(rep, mod)
-    check_state_handled(rep, mod)
-    check_tmp_twins(rep, mod)
+    rep.attempt(acct.check_count_resume, rep, mod, offc, 10)
+    rep.attempt(c01.check_tmp_states, rep, 'default')
+    rep.attempt(c02.check_rollback, rep)
+    rep.attempt(c19.check_resume, rep, mod)
+    rep.attempt(check_state_handled, rep, mod)
+    rep.attempt(check_tmp_twins, rep, mod)
     return rep.finish()
